@@ -9,7 +9,7 @@ def main():
     data = base64.b64decode(req["bytes"])
     from . import seams
     import sparseSpACE.StandardCombi as SC
-    import sparseSpACE.spatiallyAdaptiveSingleDimension2, sparseSpACE.spatiallyAdaptiveExtendSplit  # noqa
+    import sparseSpACE.spatiallyAdaptiveSingleDimension2, sparseSpACE.spatiallyAdaptiveExtendSplit, sparseSpACE.spatiallyAdaptiveCell  # noqa
     import simcore.env  # noqa
     seams.install_clock()
     seams.install_fs()
